@@ -2248,6 +2248,57 @@ func (t *tr2) regionDecl(fd *ast.FuncDecl, name string, marker string) string {
 	return strings.Join(t.loops, "\n") + fmt.Sprintf("def %s %s : %s :=\n  %s\n", name, strings.Join(ps, " "), t.retType, body)
 }
 
+// admissionDecl: the test by which the completion section of Fetcher.processQueue admits a fetched entry to the
+// results — `isLater := …` and the condition of the `if` that follows it — as a Boolean function of the fetcher's
+// fields, the results so far and the entry's clock time
+func (t *tr2) admissionDecl(f *ast.File) string {
+	fd := findMethod(f, "processQueue")
+	if fd == nil || fd.Body == nil {
+		return t.fail(&ast.BlockStmt{}, "processQueue not found")
+	}
+	t.prepare(fd)
+	t.kinds = map[string]string{"f.length": "int", "f.minClock": "int", "f.maxClock": "int", "results": "ents", "ts": "int"}
+	t.subst = map[string]string{}
+	t.recv = "f"
+	t.partial, t.emitter, t.noResult, t.brk, t.monadic = false, "", "", "", 0
+	var def string
+	ast.Inspect(fd.Body, func(n ast.Node) bool {
+		blk, ok := n.(*ast.BlockStmt)
+		if !ok || def != "" {
+			return true
+		}
+		for i, st := range blk.List {
+			as, ok := st.(*ast.AssignStmt)
+			if !ok || as.Tok != token.DEFINE || len(as.Lhs) != 1 || src(t.fset, as.Lhs[0]) != "isLater" || i+1 >= len(blk.List) {
+				continue
+			}
+			ifs, ok := blk.List[i+1].(*ast.IfStmt)
+			if !ok || ifs.Init != nil {
+				continue
+			}
+			later, kl := t.expr(as.Rhs[0])
+			t.kinds["isLater"] = "bool"
+			cond, kc := t.expr(ifs.Cond)
+			if kl != "bool" || kc != "bool" {
+				def = t.fail(ifs, "admission test")
+				return false
+			}
+			// what the admitted branch does first must be the append to the results
+			if len(ifs.Body.List) == 0 || src(t.fset, ifs.Body.List[0]) != "results = append(results, entry)" {
+				def = t.fail(ifs, "the admitted branch does not start with the append to the results")
+				return false
+			}
+			def = "def admission (fLength fMinClock fMaxClock : Int) (results : List Entry) (ts : Int) : Bool :=\n  (let isLater := " + later + "; " + cond + ")\n"
+			return false
+		}
+		return true
+	})
+	if def == "" {
+		return t.fail(fd, "admission test (isLater := …; if …) not found in processQueue")
+	}
+	return def
+}
+
 func findMethod(f *ast.File, name string) *ast.FuncDecl {
 	for _, d := range f.Decls {
 		if fd, ok := d.(*ast.FuncDecl); ok && fd.Name.Name == name && fd.Recv != nil {
@@ -2273,7 +2324,7 @@ func renderSlices(repo string) map[string]string {
 		{"Heads", []job{{"entry/utils.go", []string{"FindHeads"}}}},
 		{"Traverse", []job{{"log.go", []string{"traverse"}}}},
 		{"Join", []job{{"log.go", []string{"difference"}}}},
-		{"Fetcher", []job{{"entry/fetcher.go", []string{"updateClock", "addNextEntry"}}}},
+		{"Fetcher", []job{{"entry/fetcher.go", []string{"updateClock", "addNextEntry", "#admission"}}}},
 		{"JoinTail", []job{{"log.go", []string{"Join@join.publish"}}}},
 		{"Iterator", []job{{"log.go", []string{"sortedHeads", "Iterator"}}}},
 		{"Append", []job{{"log.go", []string{"getEveryPow2", "Append@append.locked"}}}},
@@ -2300,6 +2351,10 @@ func renderSlices(repo string) map[string]string {
 			}
 			t.file = f
 			for _, n := range j.names {
+				if n == "#admission" {
+					fmt.Fprintf(&b, "/-- the admission test of `processQueue` (%s) -/\n%s\n", j.file, t.admissionDecl(f))
+					continue
+				}
 				if i := strings.Index(n, "@"); i > 0 {
 					fd := findMethod(f, n[:i])
 					if fd == nil || fd.Body == nil {
